@@ -108,6 +108,10 @@ pub fn blocking_unit(thorough: bool) -> Unit {
             must!(cx, "setup:publish", { let a = cx.api.clone(); async move { a.publish(T0, vec![(b"m".to_vec(), vec![])]).await } });
             held = must!(cx, "setup:pull", { let a = cx.api.clone(); async move { a.pull(S0, 1, true).await } });
         }
+        // the subscription's topic may have been deleted: it still holds what it held, and a Pull on it still waits
+        if (ev == 0 || ev == 2 || ev == 3) && cx.choose("topic-deleted-before-the-pull", 2) == 1 {
+            must!(cx, "setup:delete-topic", { let a = cx.api.clone(); async move { a.delete_topic(T0).await } });
+        }
         let when_ms = [0u64, 1_000, 150_000][cx.choose("after", 3)];
         // "after 0 ms" for a publish means: the Publish starts together with the Pull (race with its check-then-wait)
         let together = when_ms == 0 && ev == 1;
